@@ -94,6 +94,18 @@ func genC15Plan(r *zsim.Rng) *sysPlan {
 	if r.Chance(1, 2) {
 		p.Args = append(p.Args, "--no-unicode")
 	}
+	if (p.Header > 0 || hasArg(p.Args, "--header")) && argValue(p.Args, "--layout") != "reverse-list" && r.Chance(1, 4) {
+		// the header goes to the far side of the prompt; with many header lines in a short window the prompt
+		// and the counters must still be there
+		p.Args = append(p.Args, "--header-first")
+		if r.Chance(1, 2) {
+			p.Header = r.Range(3, 9)
+			p.Rows = r.Range(7, 12)
+			if p.Lines.N < p.Header+2 {
+				p.Lines.N = p.Header + r.Range(2, 20)
+			}
+		}
+	}
 	for _, b := range c15Binds {
 		if b.action == "toggle-header" && (p.Header > 0 || argValue(p.Args, "--layout") == "reverse-list") {
 			// header lines / reverse-list use separate header windows whose placement is outside the documented subset
@@ -161,6 +173,26 @@ func c15Settle(r *sysRun, busy bool) {
 	where := fmt.Sprintf("layout=%q info=%q %dx%d query=%q results=%d cursor=%d offset=%d", layout, info, cols, rows, st.Query, len(st.Matches), st.Cy, st.Offset)
 	dump := func() string { return "\n" + strings.Join(scr, "\n") }
 
+	if hasArg(plan.Args, "--header-first") {
+		// Where exactly the rows go when the header does not fit is not documented; what is: the prompt line
+		// shows the query and the info line shows the counters - they are somewhere on the screen.
+		c.count("probe.header_first", 1)
+		foundPrompt, foundInfo := false, info == "hidden" || inlineInfo && runeWidthOf("> "+st.Query)+14 > cols || cols < 16
+		for _, row := range scr {
+			if strings.HasPrefix(row+" ", "> ") {
+				foundPrompt = true
+			}
+			if m := infoRe.FindStringSubmatch(row); m != nil && m[1] == strconv.Itoa(len(st.Matches)) && m[2] == strconv.Itoa(st.Count) {
+				foundInfo = true
+			}
+		}
+		if !foundPrompt {
+			c.violate("c15.prompt", "--header-first: no prompt line on the screen (%s)%s", where, dump())
+		} else if !foundInfo {
+			c.violate("c15.info", "--header-first: the matched/total counters %d/%d are nowhere on the screen (%s)%s", len(st.Matches), st.Count, where, dump())
+		}
+		return
+	}
 	// --- prompt row: at the bottom (default, reverse-list) or at the top (reverse)
 	promptRow := rows - 1
 	if layout == "reverse" {
